@@ -14,7 +14,7 @@ RULE = ("cases = (rhf|uhf) x norb 3..6 x electron counts (closed, open, n_dn = 0
         "Cholesky matrices (plus H2/H4/LiH integrals) x start (exact solution, mildly perturbed, strongly perturbed/random); eigh cases = "
         "random symmetric matrices with min gap >= 1e-3, exactly degenerate, near-degenerate 1e-12..1e-4; non-trivial = interacting "
         "(chol != 0) problem or non-diagonal matrix")
-MIN_NONTRIVIAL = {"quick": 60, "thorough": 600}
+MIN_NONTRIVIAL = {"quick": 60, "thorough": 500}
 TIMEOUT = {"quick": 1200, "thorough": 5400}
 ASSUMPTIONS = ["fixed-point / energy clauses only on gapped problems where an independent undamped Roothaan iteration from the same start converges within 30 iterations",
                "orthonormality and finiteness clauses on every input"]
